@@ -6,12 +6,12 @@
 //	      -> own=<samples reported by Shoot> hook=<samples reported by the Connect hook> [tags proto net id] late=<k> shape=<timeout>:<shape> reqs=<requests the target saw>
 //	      (every gun-level observation prints the samples AS THEY ARE AT THE MOMENT OF Report - the
 //	      aggregator owns them from then on - and late=<number of samples written to after Report>)
-//	hscen <name> <step>,<step>...      step = <name>:<kind>[:<tag>], kind: s<status> reset trunc pp<status> tmpl pre;
+//	hscen <name> <step>,<step>... [<opts>]   step = <name>:<kind>[:<tag>], kind: s<status> q<status> (succeeding pre/postprocessors) reset trunc pp<status> tmpl pre;
 //	      <tag> = the tag the request declares (gun.Request.Tag; the sample is labelled with the NAME)
 //	      -> n=<samples> tags:proto:net ...
-//	gshoot <tag> <kind>                 kind: st<code> unknown badpayload
+//	gshoot <tag> <kind> [<opts>]        kind: st<code> unknown badpayload
 //	      -> n=<samples> tags:proto:net
-//	gscen <name> <step>,<step>...      step = <tag>:<kind>[:<call name>], kind: st<code> badcall badpayload tmpl pre post<code>
+//	gscen <name> <step>,<step>... [<opts>]   step = <tag>:<kind>[:<call name>], kind: st<code> qt<code> (succeeding pre/postprocessors) badcall badpayload tmpl pre post<code>
 //	      (the sample is labelled with the call's TAG; the name defaults to step<i>)
 //	      -> n=<samples> tags:proto:net ...
 package main
@@ -42,6 +42,7 @@ import (
 	"github.com/yandex/pandora/core/aggregator/netsample"
 	"github.com/yandex/pandora/core/warmup"
 	"go.uber.org/zap"
+	"go.uber.org/zap/zapcore"
 
 	"verifharness/internal/a18"
 	"verifharness/internal/vh"
@@ -107,7 +108,7 @@ func (b *recBody) Read(p []byte) (int, error) {
 }
 
 // shapeOf describes an error value the way Model/Sample.v's nerr does: wrappers outermost
-// first (O *net.OpError, S *os.SyscallError, U *url.Error, W pkg/errors wrapper), then E<n>
+// first (O *net.OpError, S *os.SyscallError, U *url.Error, W pkg/errors wrapper, N a value with Underlying()), then E<n>
 // for a syscall.Errno or X for anything else; the flag says whether the value itself
 // implements net.Error with Timeout() true.
 func shapeOf(err error) string {
@@ -136,6 +137,11 @@ func shapeOf(err error) string {
 		case syscall.Errno:
 			toks = append(toks, fmt.Sprintf("E%d", int(e)))
 			return vh.B(timeout) + ":" + strings.Join(toks, ".")
+		}
+		if u, ok := err.(interface{ Underlying() error }); ok && u.Underlying() != nil {
+			toks = append(toks, "N")
+			err = u.Underlying()
+			continue
 		}
 		if c, ok := err.(interface{ Cause() error }); ok && c.Cause() != nil && c.Cause() != err {
 			toks = append(toks, "W")
@@ -166,6 +172,28 @@ type plainAmmo struct{ invalidAmmo }
 
 func (a plainAmmo) IsInvalid() bool { return false }
 
+// gunLog: the logger an instance hands to its gun; with "v" in the options it accepts debug messages (log level
+// debug: the guns switch their verbose logging on) and writes them nowhere.
+func gunLog(opts string) *zap.Logger {
+	if !strings.Contains(opts, "v") {
+		return zap.NewNop()
+	}
+	return zap.New(zapcore.NewCore(zapcore.NewJSONEncoder(zap.NewProductionEncoderConfig()), zapcore.AddSync(io.Discard), zap.DebugLevel))
+}
+
+// answer log: a = filter all, w = warning, e = error (written to /dev/null)
+func answFilter(opts string) (bool, string) {
+	switch {
+	case strings.Contains(opts, "a"):
+		return true, "all"
+	case strings.Contains(opts, "w"):
+		return true, "warning"
+	case strings.Contains(opts, "e"):
+		return true, "error"
+	}
+	return false, ""
+}
+
 func sampleNet(s *netsample.Sample) string { return phoutField(s, 8) }
 
 func httpGunConfig(addr string) phttp.GunConfig {
@@ -185,7 +213,7 @@ func runHTTP(f []string) string {
 	}
 	opts := ""
 	if len(f) == 10 {
-		opts = f[9] // t: httptrace timings, d: request/response dumps, a: answer log (filter all)
+		opts = f[9] // t: httptrace timings, d: request/response dumps, a/w/e: answer log (filter all/warning/error), v: log level debug, b: request with a body, s: shared client pool (only with fault ok: the pool's client is not the recording one)
 	}
 	gunKind, fault, status := f[1], f[2], f[3]
 	depth, _ := strconv.Atoi(f[5])
@@ -215,9 +243,8 @@ func runHTTP(f []string) string {
 	cfg.AutoTag.NoTagOnly = f[6] == "1"
 	cfg.HTTPTrace.TraceEnabled = strings.Contains(opts, "t")
 	cfg.HTTPTrace.DumpEnabled = strings.Contains(opts, "d")
-	if strings.Contains(opts, "a") {
-		cfg.AnswLog.Enabled = true
-		cfg.AnswLog.Filter = "all"
+	if on, filter := answFilter(opts); on {
+		cfg.AnswLog.Enabled, cfg.AnswLog.Filter, cfg.AnswLog.Path = true, filter, os.DevNull
 	}
 	var g *phttp.BaseGun
 	if gunKind == "c" {
@@ -245,7 +272,16 @@ func runHTTP(f []string) string {
 			return e
 		}
 	}
-	if err := g.Bind(ag, core.GunDeps{Ctx: context.Background(), Log: zap.NewNop()}); err != nil {
+	deps := core.GunDeps{Ctx: context.Background(), Log: gunLog(opts)}
+	if strings.Contains(opts, "s") { // shared-client: the instance takes its client from the pool WarmUp builds
+		g.Config.SharedClient.Enabled, g.Config.SharedClient.ClientNumber = true, 2
+		shared, err := g.WarmUp(&warmup.Options{Log: zap.NewNop(), Ctx: context.Background()})
+		if err != nil {
+			return "warmuperr"
+		}
+		deps.Shared = shared
+	}
+	if err := g.Bind(ag, deps); err != nil {
 		return "binderr"
 	}
 	defer g.Close()
@@ -256,6 +292,9 @@ func runHTTP(f []string) string {
 	}
 	req := &http.Request{Method: "GET", URL: &url.URL{Path: path}, Header: http.Header{"X-Verif": []string{xv}},
 		Proto: "HTTP/1.1", ProtoMajor: 1, ProtoMinor: 1}
+	if strings.Contains(opts, "b") { // a request with a body
+		req.Method, req.Body, req.ContentLength = "POST", io.NopCloser(strings.NewReader("payload")), 7
+	}
 	am := invalidAmmo{req: req, tag: tag, id: 7}
 	done := make(chan struct{})
 	go func() {
@@ -415,6 +454,16 @@ func (failPost) Process(*http.Response, io.Reader) (map[string]any, error) {
 	return nil, errors.New("assert failed")
 }
 
+type okPre struct{}
+
+func (okPre) Process(map[string]any) (map[string]any, error) { return map[string]any{"k": "v"}, nil }
+
+type okPost struct{}
+
+func (okPost) Process(*http.Response, io.Reader) (map[string]any, error) {
+	return map[string]any{"seen": true}, nil
+}
+
 type emptyStorage struct{}
 
 func (emptyStorage) Variables() map[string]any { return map[string]any{} }
@@ -431,19 +480,32 @@ func samplesLine(ss []*netsample.Sample, snaps []snap) string {
 }
 
 func runHScen(f []string) string {
-	if len(f) != 3 {
+	if len(f) != 3 && len(f) != 4 {
 		return "unknown-case"
+	}
+	// options: t d a w e v as for the http cases, b: requests with a body, m: min_waiting_time, z: a sleep after every step
+	opts := ""
+	if len(f) == 4 {
+		opts = f[3]
 	}
 	name := string(vh.UnHex(f[1]))
 	t := theTarget()
 	cfg := httpGunConfig(t.Addr())
+	cfg.HTTPTrace.TraceEnabled = strings.Contains(opts, "t")
+	cfg.HTTPTrace.DumpEnabled = strings.Contains(opts, "d")
+	if on, filter := answFilter(opts); on {
+		cfg.AnswLog.Enabled, cfg.AnswLog.Filter, cfg.AnswLog.Path = true, filter, os.DevNull
+	}
 	g := httpscen.NewHTTPGun(cfg, zap.NewNop())
 	ag := &recAggr{}
-	if err := g.Bind(ag, core.GunDeps{Ctx: context.Background(), Log: zap.NewNop()}); err != nil {
+	if err := g.Bind(ag, core.GunDeps{Ctx: context.Background(), Log: gunLog(opts)}); err != nil {
 		return "binderr"
 	}
 	defer g.Close()
 	sc := &httpscen.Scenario{Name: name, ID: 3, VariableStorage: emptyStorage{}}
+	if strings.Contains(opts, "m") {
+		sc.MinWaitingTime = 3 * time.Millisecond
+	}
 	if f[2] != "-" {
 		for _, st := range strings.Split(f[2], ",") {
 			nm, kind, _ := strings.Cut(st, ":")
@@ -451,6 +513,13 @@ func runHScen(f []string) string {
 			r := httpscen.Request{Method: "GET", Name: string(vh.UnHex(nm)), URI: "/x", Templater: nopTemplater{}}
 			if declTag != "" {
 				r.Tag = string(vh.UnHex(declTag))
+			}
+			if strings.Contains(opts, "b") {
+				body := "payload"
+				r.Method, r.Body = "POST", &body
+			}
+			if strings.Contains(opts, "z") {
+				r.Sleep = time.Millisecond
 			}
 			switch {
 			case kind == "reset" || kind == "trunc":
@@ -462,6 +531,10 @@ func runHScen(f []string) string {
 			case strings.HasPrefix(kind, "pp"):
 				r.Headers = map[string]string{"X-Verif": "ok:" + kind[2:]}
 				r.Postprocessors = []httpscen.Postprocessor{failPost{}}
+			case strings.HasPrefix(kind, "q"): // a preprocessor and two postprocessors, all succeeding
+				r.Headers = map[string]string{"X-Verif": "ok:" + kind[1:]}
+				r.Preprocessor = okPre{}
+				r.Postprocessors = []httpscen.Postprocessor{okPost{}, okPost{}}
 			default: // s<status>
 				r.Headers = map[string]string{"X-Verif": "ok:" + kind[1:]}
 			}
@@ -495,9 +568,32 @@ func (r *coreAggr) Report(s core.Sample) {
 
 const helloMethod = "target.TargetService.Hello"
 
+// grpcOpts applies the option letters of a gRPC case to the gun config: a/w/e answer log filter, s: shared client
+// pool (two clients), o: dial options (authority, dial timeout), p: reflect_port (the target's own port, given explicitly)
+func grpcOpts(conf *grpcgun.GunConfig, opts string) {
+	if on, filter := answFilter(opts); on {
+		conf.AnswLog.Enabled, conf.AnswLog.Filter, conf.AnswLog.Path = true, filter, os.DevNull
+	}
+	if strings.Contains(opts, "s") {
+		conf.SharedClient.Enabled, conf.SharedClient.ClientNumber = true, 2
+	}
+	if strings.Contains(opts, "o") {
+		conf.DialOptions.Authority, conf.DialOptions.Timeout = "verif.authority", 2*time.Second
+	}
+	if strings.Contains(opts, "p") {
+		if _, port, err := net.SplitHostPort(conf.Target); err == nil {
+			conf.ReflectPort, _ = strconv.ParseInt(port, 10, 64)
+		}
+	}
+}
+
 func runGShoot(f []string) string {
-	if len(f) != 3 {
+	if len(f) != 3 && len(f) != 4 {
 		return "unknown-case"
+	}
+	opts := ""
+	if len(f) == 4 {
+		opts = f[3]
 	}
 	tag := string(vh.UnHex(f[1]))
 	kind := f[2]
@@ -505,13 +601,14 @@ func runGShoot(f []string) string {
 	conf := grpcgun.DefaultGunConfig()
 	conf.Target = gt.Addr
 	conf.Timeout = 2 * time.Second
+	grpcOpts(&conf, opts)
 	g := grpcgun.NewGun(conf)
 	shared, err := g.WarmUp(&warmup.Options{Log: zap.NewNop(), Ctx: context.Background()})
 	if err != nil {
 		return "warmuperr"
 	}
 	ag := &coreAggr{}
-	if err := g.Bind(ag, core.GunDeps{Ctx: context.Background(), Log: zap.NewNop(), Shared: shared}); err != nil {
+	if err := g.Bind(ag, core.GunDeps{Ctx: context.Background(), Log: gunLog(opts), Shared: shared}); err != nil {
 		return "binderr"
 	}
 	am := &grpcammo.Ammo{}
@@ -533,6 +630,18 @@ func (gFailPre) Process(*grpcscen.Call, map[string]any) (map[string]any, error) 
 	return nil, errors.New("preprocessor failed")
 }
 
+type gOkPre struct{}
+
+func (gOkPre) Process(*grpcscen.Call, map[string]any) (map[string]any, error) {
+	return map[string]any{"k": "v"}, nil
+}
+
+type gOkPost struct{}
+
+func (gOkPost) Process(proto.Message, int) (map[string]any, error) {
+	return map[string]any{"seen": true}, nil
+}
+
 type gFailPost struct{}
 
 func (gFailPost) Process(proto.Message, int) (map[string]any, error) {
@@ -540,24 +649,42 @@ func (gFailPost) Process(proto.Message, int) (map[string]any, error) {
 }
 
 func runGScen(f []string) string {
-	if len(f) != 3 {
+	if len(f) != 3 && len(f) != 4 {
 		return "unknown-case"
+	}
+	opts := "" // as for gshoot, and m: min_waiting_time, z: a sleep after every step
+	if len(f) == 4 {
+		opts = f[3]
 	}
 	name := string(vh.UnHex(f[1]))
 	gt := theGrpcTarget()
 	conf := grpcscen.DefaultGunConfig()
 	conf.Target = gt.Addr
 	conf.Timeout = 2 * time.Second
+	if on, filter := answFilter(opts); on {
+		conf.AnswLog.Enabled, conf.AnswLog.Filter, conf.AnswLog.Path = true, filter, os.DevNull
+	}
+	if strings.Contains(opts, "o") {
+		conf.DialOptions.Authority, conf.DialOptions.Timeout = "verif.authority", 2*time.Second
+	}
+	if strings.Contains(opts, "p") {
+		if _, port, err := net.SplitHostPort(conf.Target); err == nil {
+			conf.ReflectPort, _ = strconv.ParseInt(port, 10, 64)
+		}
+	}
 	g := grpcscen.NewGun(conf)
 	shared, err := g.WarmUp(&warmup.Options{Log: zap.NewNop(), Ctx: context.Background()})
 	if err != nil {
 		return "warmuperr"
 	}
 	ag := &coreAggr{}
-	if err := g.Bind(ag, core.GunDeps{Ctx: context.Background(), Log: zap.NewNop(), Shared: shared}); err != nil {
+	if err := g.Bind(ag, core.GunDeps{Ctx: context.Background(), Log: gunLog(opts), Shared: shared}); err != nil {
 		return "binderr"
 	}
 	sc := &grpcscen.Scenario{Name: name}
+	if strings.Contains(opts, "m") {
+		sc.MinWaitingTime = 3 * time.Millisecond
+	}
 	if f[2] != "-" {
 		for i, st := range strings.Split(f[2], ",") {
 			tg, kind, _ := strings.Cut(st, ":")
@@ -566,6 +693,9 @@ func runGScen(f []string) string {
 				Payload: []byte(`{"name":"x"}`), Metadata: map[string]string{}}
 			if callName != "" {
 				c.Name = string(vh.UnHex(callName))
+			}
+			if strings.Contains(opts, "z") {
+				c.Sleep = time.Millisecond
 			}
 			switch {
 			case kind == "badcall":
@@ -579,6 +709,10 @@ func runGScen(f []string) string {
 			case strings.HasPrefix(kind, "post"):
 				c.Metadata["x-status"] = kind[4:]
 				c.Postprocessors = []grpcscen.Postprocessor{gFailPost{}}
+			case strings.HasPrefix(kind, "qt"): // preprocessors and postprocessors, all succeeding
+				c.Metadata["x-status"] = kind[2:]
+				c.Preprocessors = []grpcscen.Preprocessor{gOkPre{}, gOkPre{}}
+				c.Postprocessors = []grpcscen.Postprocessor{gOkPost{}}
 			default: // st<code>
 				c.Metadata["x-status"] = kind[2:]
 			}
@@ -612,7 +746,7 @@ func genGuns(r *vh.Rand, tier string) []string {
 		}
 		opts := ""
 		if r.Chance(1, 3) {
-			opts = " " + r.Pick([]string{"t", "d", "a", "td", "tda"})
+			opts = " " + r.Pick([]string{"t", "d", "a", "td", "tda", "w", "e", "v", "b", "vb", "dab", "tvw", "be"})
 		}
 		return fmt.Sprintf("%s %d %s %s %s%s", vh.B(r.Chance(1, 2)), r.Intn(4), vh.B(r.Bool()), vh.HexS(tag), vh.HexS(rndPath()), opts)
 	}
@@ -622,7 +756,15 @@ func genGuns(r *vh.Rand, tier string) []string {
 		hi = 999
 	}
 	for st := lo; st <= hi; st++ {
-		out = append(out, fmt.Sprintf("http h ok %d %s", st, rndTagging()))
+		c := fmt.Sprintf("http h ok %d %s", st, rndTagging())
+		if st%16 == 5 { // the client taken from the shared pool
+			if strings.Count(c, " ") == 8 {
+				c += " s"
+			} else {
+				c += "s"
+			}
+		}
+		out = append(out, c)
 	}
 	out = append(out, "http h ok 101 0 2 0 - 2f", "http h ok 600 0 2 0 - 2f", "http h ok 999 0 2 0 - 2f")
 	// ... and a sample of them through the connect gun (tunnel through the in-process proxy)
@@ -700,6 +842,12 @@ func genGuns(r *vh.Rand, tier string) []string {
 		}
 	}
 	out = append(out, "hscen "+vh.HexS("empty")+" -")
+	// every gun option that must not change the samples, on a scenario with a completed plain step, a completed step
+	// with processors, and a failing step
+	for _, o := range []string{"t", "d", "a", "w", "e", "v", "b", "m", "z", "tdavb", "wvmz", "evb"} {
+		out = append(out, fmt.Sprintf("hscen %s %s:s200%s,%s:q503%s,%s:%s%s %s", vh.HexS("sc"), vh.HexS("a"), other("a"), vh.HexS("b2"), other("b2"),
+			vh.HexS("x.y"), r.Pick([]string{"pp200", "pp500", "reset", "trunc", "s404"}), other("x.y"), o))
+	}
 	nsc := 40
 	if tier == "thorough" {
 		nsc = 1500
@@ -711,11 +859,17 @@ func genGuns(r *vh.Rand, tier string) []string {
 			kind := fmt.Sprintf("s%d", r.Range(200, 599))
 			if r.Chance(1, 6) {
 				kind = r.Pick(hkinds)
+			} else if r.Chance(1, 5) {
+				kind = "q" + kind[1:]
 			}
 			nm := r.Pick(names)
 			parts = append(parts, vh.HexS(nm)+":"+kind+other(nm))
 		}
-		out = append(out, "hscen "+vh.HexS(r.Pick([]string{"sc", "my scenario", "s|t"}))+" "+strings.Join(parts, ","))
+		o := ""
+		if r.Chance(1, 2) {
+			o = " " + r.Pick([]string{"t", "d", "a", "w", "e", "v", "b", "m", "z", "tdab", "vb", "va", "mz", "wb", "ez"})
+		}
+		out = append(out, "hscen "+vh.HexS(r.Pick([]string{"sc", "my scenario", "s|t"}))+" "+strings.Join(parts, ",")+o)
 	}
 	// a call's name identifies the call in the scenario file (the provider's registry is keyed by it, the gun's
 	// template cache too): two DIFFERENT calls never share a name; the same call may be repeated
@@ -735,6 +889,13 @@ func genGuns(r *vh.Rand, tier string) []string {
 		out = append(out, fmt.Sprintf("gshoot %s st%d", vh.HexS(r.Pick([]string{"t", "", "grpc tag"})), c))
 	}
 	out = append(out, "gshoot 74 st99", "gshoot 74 st4294967295", "gshoot 74 unknown", "gshoot - unknown", "gshoot 74 badpayload")
+	// gun options that must not change the sample: answer log filters, log level debug, shared client pool,
+	// dial options, explicit reflection port
+	for _, o := range []string{"a", "w", "e", "v", "s", "o", "p", "vaso", "wsp"} {
+		for _, k := range []string{"st0", "st5", "st13", "unknown", "badpayload"} {
+			out = append(out, fmt.Sprintf("gshoot %s %s %s", vh.HexS(r.Pick([]string{"t", "", "grpc tag"})), k, o))
+		}
+	}
 	gkinds := []string{"badcall", "badpayload", "tmpl", "pre", "post0", "post5", "post14"}
 	for pos := 0; pos < 3; pos++ {
 		for _, k := range gkinds {
@@ -749,6 +910,10 @@ func genGuns(r *vh.Rand, tier string) []string {
 		}
 	}
 	out = append(out, "gscen "+vh.HexS("empty")+" -")
+	for _, o := range []string{"a", "w", "e", "v", "o", "p", "m", "z", "vaop", "wvmz"} {
+		out = append(out, fmt.Sprintf("gscen %s %s:st0,%s:qt5,%s:%s %s", vh.HexS("gs"), vh.HexS("a"), vh.HexS("b2"),
+			vh.HexS("x.y"), r.Pick([]string{"post0", "post14", "badpayload", "st13"}), o))
+	}
 	ng := 20
 	if tier == "thorough" {
 		ng = 600
@@ -761,11 +926,17 @@ func genGuns(r *vh.Rand, tier string) []string {
 			kind := fmt.Sprintf("st%d", r.Range(0, 17))
 			if r.Chance(1, 6) {
 				kind = r.Pick(gkinds)
+			} else if r.Chance(1, 5) {
+				kind = "q" + kind[1:]
 			}
 			tg := r.Pick(names)
 			parts = append(parts, vh.HexS(tg)+":"+kind+callName(used, tg, kind))
 		}
-		out = append(out, "gscen "+vh.HexS(r.Pick([]string{"gs", "my scenario"}))+" "+strings.Join(parts, ","))
+		o := ""
+		if r.Chance(1, 2) {
+			o = " " + r.Pick([]string{"a", "w", "e", "v", "o", "p", "m", "z", "va", "mz", "wop"})
+		}
+		out = append(out, "gscen "+vh.HexS(r.Pick([]string{"gs", "my scenario"}))+" "+strings.Join(parts, ",")+o)
 	}
 	return out
 }
